@@ -128,12 +128,13 @@ class WorldFile(FileList):
 
     def _modify(self, atom_inst, func):
         if atom_inst.slot:
-            for slot in atom_inst.slot:
-                if slot == "0":
-                    new_atom_inst = atom(atom_inst.key)
-                else:
-                    new_atom_inst = atom(atom_inst.key + ":" + slot)
-                func(self, new_atom_inst)
+            # slot is a single string; record it whole
+            slot = atom_inst.slot
+            if slot == "0":
+                new_atom_inst = atom(atom_inst.key)
+            else:
+                new_atom_inst = atom(atom_inst.key + ":" + slot)
+            func(self, new_atom_inst)
         else:
             atom_inst = atom(atom_inst.key)
             func(self, atom_inst)
